@@ -9,6 +9,7 @@ pub mod c03;
 pub mod c04;
 #[cfg(feature = "full")]
 pub mod c06;
+pub mod c07;
 pub mod c08;
 pub mod c09;
 pub mod certify;
@@ -16,6 +17,8 @@ pub mod c05;
 pub mod c10;
 #[cfg(feature = "full")]
 pub mod c11;
+#[cfg(feature = "full")]
+pub mod c12;
 pub mod c13;
 pub mod c14;
 pub mod c15;
@@ -40,11 +43,14 @@ pub fn run(ctx: &Ctx) -> Option<i32> {
         "C06" => c06::run(ctx),
         "C03" => c03::run(ctx),
         "C05" => c05::run(ctx),
+        "C07" => c07::run(ctx),
         "C08" => c08::run(ctx),
         "C09" => c09::run(ctx),
         "C10" => c10::run(ctx),
         #[cfg(feature = "full")]
         "C11" => c11::run(ctx),
+        #[cfg(feature = "full")]
+        "C12" => c12::run(ctx),
         "C13" => c13::run(ctx),
         "C14" => c14::run(ctx),
         "C15" => c15::run(ctx),
